@@ -76,6 +76,17 @@ Definition prepare_scan (r : raw) (m : mdump) : option mdump :=
 Definition finish (r : raw) : option mdump :=
   if gate_rejects r then None else prepare_scan r (epilogue (r_m r)).
 
+(* libxmp_scan_sequences, which load_module runs next, can still fail the load: the scan of sequence 0 walks the order list from
+   order 0 and skips orders that name no pattern; with end markers (QUIRK_MARKER: S3M, IT) an 0xff entry that names no pattern
+   ends it, and a scan that ends before any order holding a pattern returns -1 ("not able to find any valid orders", scan.c:730) *)
+Fixpoint reaches_pattern (pat : Z) (l : list Z) : bool :=
+  match l with [] => false | o :: t => if o <? pat then true else if o =? 255 then false else reaches_pattern pat t end.
+Definition scan_finds (marker : bool) (m : mdump) : bool :=
+  (d_len m =? 0) || negb marker || reaches_pattern (d_pat m) (firstn (Z.to_nat (d_len m)) (d_xxo m)).
+(* None = the load fails (-XMP_ERROR_LOAD) *)
+Definition load_accepts (r : raw) (marker : bool) : option mdump :=
+  match finish r with Some m => if scan_finds marker m then Some m else None | None => None end.
+
 (* what loaders must provide and the gate does not check (each clause is evaluated on real loader output by the tie) *)
 Definition env_nonneg (e : env) : bool := (0 <=? e_lps e) && (0 <=? e_lpe e) && (0 <=? e_sus e) && (0 <=? e_sue e).
 Definition loader_postb (r : raw) : bool :=
